@@ -233,7 +233,7 @@ func c08Setup(t *Term) (*c08lit, []byte, int) {
 
 func c08(t *Term) string {
 	lit, raw, off := c08Setup(t)
-	f := text.NewFile("f", raw)
+	f := loadFile("f", raw, variantOf(raw, 0))
 	var early *text.Reader
 	if (len(raw)+off)%2 == 0 {
 		early = text.NewReader(f) // a reader created before the file is placed must follow its base offset
